@@ -44,6 +44,14 @@ func raceFiles(v int) map[string]string {
 		"/page.jet":  `{{extends "/base.jet"}}{{import "/lib.jet"}}{{block body()}}page:{{.A}}:{{yield extra()}}{{end}}`,
 		"/lib.jet":   `{{block extra()}}X{{ gfn(2) }}{{end}}{{block side(w=3)}}L{{w}}{{end}}`,
 		"/inc.jet":   `I({{.}})`,
+		// templates first loaded while others execute: every shape of extends / import / own blocks
+		"/late0.jet": `{{extends "/base.jet"}}{{import "/lib.jet"}}`,
+		"/late1.jet": `{{extends "/base.jet"}}{{import "/lib.jet"}}{{block body()}}late1{{end}}`,
+		"/late2.jet": `{{extends "/page.jet"}}`,
+		"/late3.jet": `{{import "/lib.jet"}}{{yield side()}}{{yield extra()}}`,
+		"/late4.jet": `{{extends "/base.jet"}}{{import "/lib2.jet"}}{{import "/lib.jet"}}`,
+		"/late5.jet": `{{extends "/late0.jet"}}{{block side(w=9)}}five{{w}}{{end}}`,
+		"/lib2.jet":  `{{import "/lib.jet"}}{{block body()}}lib2-body{{end}}{{block side(w=4)}}M{{w}}{{end}}`,
 		"/main.jet":  `{{range i, x := .C}}{{i}}={{x}};{{end}}{{include "/inc.jet" .B}}{{ .A + 1 }}{{ upper(.B) }}{{try}}{{ nope }}{{catch}}c{{end}}`,
 		"/glob.jet":  `[{{ gv }}]{{ isset(gnew) }}`,
 		"/edit.jet":  edit,
@@ -98,7 +106,8 @@ func init() {
 		ng := atoi(cmd.Xs[2].A)
 		nops := atoi(cmd.Xs[3].A)
 		dev := cmd.Xs[4].A == "true"
-		names := []string{"/page.jet", "/main.jet", "/glob.jet", "/edit.jet", "/deep.jet", "/incl2.jet", "/base.jet", "/rng.jet", "/rng.jet"}
+		names := []string{"/page.jet", "/main.jet", "/glob.jet", "/edit.jet", "/deep.jet", "/incl2.jet", "/base.jet", "/rng.jet", "/rng.jet",
+			"/late0.jet", "/late1.jet", "/late2.jet", "/late3.jet", "/late4.jet", "/late5.jet", "/base.jet", "/page.jet"}
 		// serial expectations: every admissible version of the edited file and of the global
 		allowed := map[string]map[string]bool{}
 		for _, n := range names {
